@@ -20,7 +20,7 @@
 //
 // Ops (see lean/BlocV/Model/CApi.lean `Op` for the model of each):
 //   cnew,c | cclone,c,d,k (k=1 bloc_clone_context, k=2 bloc_clone_context2) | cfree,c | cpurge,c | cpwm,c
-//   reg,c,s,HEXNAME,major,ndim | find,c,s,HEXNAME | store,c,s,v | storeu,c,s,v (witness only) | load,c,s,v
+//   reg,c,s,HEXNAME,major,ndim | find,c,s,HEXNAME | store,c,s,v | storeu,c,s,v (witness only) | rstore,c,s,v (v library-owned / item) | load,c,s,v
 //   vnull,v,major | vbool,v,b | vint,v,dec | vnum,v,hex16 | vlit,v,HEX|- | vraw,v,HEX|- | vimag,v,hex16,hex16 | vfree,v
 //   alit,v,HEX|- | araw,v,HEX|- | anull,v | vdump,v | acc,v,K | accu,v,K   (K in b i n l x t u c; accu = synonym of acc)
 //   tabitem,v,idx,w | tupitem,v,idx,w
@@ -238,6 +238,24 @@ static std::string doOp(const std::string& op) {
     if (r) { killBoxItems(v); if (cmd == "store") killCtxItems(c); }
     return r ? "1" : "0";
   }
+  // BEGIN C15R5
+  if (cmd == "rstore") {
+    // store a value the host does NOT own as a box of its own: a pointer from bloc_ctx_load_variable (any context, also a
+    // clone / the original) or an item pointer (bloc_array_item / bloc_tuple_item, into a context or into a caller-owned box)
+    // is passed to bloc_ctx_store_variable of context c. The library copies a variable's own cell (an lvalue) and MOVES
+    // anything else: afterwards the item pointers of the target context are over (old payload released) and, when the
+    // source was an item, so are the item pointers of the source's family (the element was moved out).
+    int c = I(1), s = I(2), v = I(3); if (!symLive(s, c) || !valLive(v) || V[v].kind == V_BOX || V[v].kind == V_EVAL) return PRE;
+    ValSlot src = V[v];
+    bloc_bool r = bloc_ctx_store_variable(C[c].p, S[s].p, V[v].p);
+    if (r) {
+      killCtxItems(c);
+      if (src.kind == V_ITEM) killCtxItems(src.ctx);
+      if (src.kind == V_BOXITEM) killBoxItems(src.root);
+    }
+    return r ? "1" : "0";
+  }
+  // END C15R5
   if (cmd == "load") {
     int c = I(1), s = I(2), v = I(3); if (!symLive(s, c) || !valFree(v)) return PRE;
     bloc_value* p = bloc_ctx_load_variable(C[c].p, S[s].p);
